@@ -102,6 +102,15 @@ func genC09(tier string, r *rng, emit func(string)) {
 	for _, c := range []string{"new:rm:2,3,4:1;new:rm:4,3,2:2;tmul:0:1:-1,1:-3,1", "new:rm:2,3:1;new:rm:3,2:2;tmul:0:1:-1:0", "new:rm:2,3:1;new:rm:3,2:2;tmul:0:1:1:-2"} {
 		emit("prog f64 " + c)
 	}
+	// Dot of two vectors: plain, lazily transposed (n,1)/(1,n) forms, and strided views (refused:
+	// their storage is longer than their size)
+	for _, dt := range []string{"f64", "f32"} {
+		for _, c := range []string{"new:rm:3:1;new:rm:3:5;dot:0:1:safe", "new:rm:3:1;new:rm:4:5;dot:0:1:safe",
+			"new:rm:3,4:0;slice:0:_/1.2.0;new:rm:3:1;dot:2:1:safe", "new:rm:3,4:0;slice:0:_/1.2.0;new:rm:3:1;dot:1:2:safe",
+			"new:rm:6:0;slice:0:0.6.2;new:rm:3:1;dot:2:1:safe", "new:rm:3,4:0;slice:0:1.2.0/0.3.1;new:rm:3:1;dot:2:1:safe"} {
+			emit(fmt.Sprintf("prog %s %s", dt, c))
+		}
+	}
 	// inner dimensions and lengths around the block sizes of unrolled / vectorised loops
 	for _, dt := range []string{"f64", "f32"} {
 		for _, k := range []int{1, 2, 3, 4, 5, 7, 8, 9, 15, 16, 17, 31, 32, 33} {
